@@ -150,10 +150,11 @@ def subsVerb (s : SubSt) (ws : List String) : Option (SubSt × String) :=
       | _, _, _ => (s, "bad-op"))
   | "ss" :: rest =>
     some (match rest with
-      | ["sub", c, m, rid] =>
-        (match nat3 c m rid with
-          | some (c, m, rid) => runOp s (.subscribe c m rid)
-          | none => (s, "bad-op"))
+      | ["sub", c, m, rid, sid] =>
+        -- `sid` = the id the harness's id provider will hand out if the call gets a permit
+        (match nat3 c m rid, sid.toNat? with
+          | some (c, m, rid), some sid => runOp s (.subscribe c m rid sid)
+          | _, _ => (s, "bad-op"))
       | ["accept", k] =>
         (match k.toNat? with | some k => runOp s (.accept k) | none => (s, "bad-op"))
       | ["acceptsend", k, p] =>
